@@ -404,6 +404,42 @@ extern const MPT_STRUCT(named_traits) *mpt_metatype_traits(MPT_TYPE(type) type)
 	return 0;
 }
 
+/* find metatype or interface registered with exact name */
+static const MPT_STRUCT(named_traits) *_named_find(const char *name, size_t len)
+{
+	const struct named_traits_chunk *ext;
+	int i;
+	
+	if (!(ext = meta_types)) {
+		_meta_init();
+		ext = meta_types;
+	}
+	while (ext) {
+		for (i = 0; i < ext->used; i++) {
+			const MPT_STRUCT(named_traits) *elem = ext->traits[i];
+			if (elem->name
+			 && (len == strlen(elem->name))
+			 && !strncmp(name, elem->name, len)) {
+				return elem;
+			}
+		}
+		ext = ext->next;
+	}
+	if (!interface_types) {
+		_interfaces_init();
+	}
+	for (i = 0; i < interface_pos; i++) {
+		const MPT_STRUCT(named_traits) *elem;
+		if ((elem = interface_types[i])
+		 && elem->name
+		 && (len == strlen(elem->name))
+		 && !strncmp(name, elem->name, len)) {
+			return elem;
+		}
+	}
+	return 0;
+}
+
 /*!
  * \ingroup mptTypes
  * \brief get type for name
@@ -610,18 +646,11 @@ extern const MPT_STRUCT(named_traits) *mpt_type_metatype_add(const char *name)
 			errno = EINVAL;
 			return 0;
 		}
-		while (ext) {
-			int i, max;
-			for (i = 0, max = ext->used; i < max; i++) {
-				elem = ext->traits[i];
-				if (elem->name && !strcmp(elem->name, name)) {
-					errno = EINVAL;
-					return 0;
-				}
-			}
-			ext = ext->next;
+		/* name must be unique for metatypes and interfaces */
+		if (_named_find(name, nlen - 1)) {
+			errno = EINVAL;
+			return 0;
 		}
-		ext = meta_types;
 	}
 	pos = MPT_ENUM(_TypeMetaPtrBase);
 	
@@ -683,15 +712,12 @@ extern const MPT_STRUCT(named_traits) *mpt_type_interface_add(const char *name)
 	}
 	
 	if (name) {
-		int i;
-		for (i = 0; i < interface_pos; i++) {
-			elem = interface_types[i];
-			if (elem && elem->name && !strcmp(elem->name, name)) {
-				errno = EINVAL;
-				return 0;
-			}
-		}
 		nlen = strlen(name);
+		/* name must be unique for metatypes and interfaces */
+		if (_named_find(name, nlen)) {
+			errno = EINVAL;
+			return 0;
+		}
 		if (nlen++ < 4) {
 			errno = EINVAL;
 			return 0;
